@@ -33,7 +33,50 @@ pub fn impl_encode(v: &V) -> Vec<u8> {
 pub fn cons_encode(v: &V) -> Vec<u8> {
     let mut a = Allocator::new();
     let n = v.to_node(&mut a);
-    clvmr::serde::node_to_bytes(&a, n).expect("clvmr serialise")
+    match clvmr::serde::node_to_bytes(&a, n) {
+        Ok(b) => b,
+        // clvmr's serialiser refuses outputs of 128 MiB and more ("OutOfMemory"): the encoding is then written
+        // out from the format definition (what Serialize.tla's Enc says), which is what clvmr produces below that size
+        Err(_) => format_encode(v),
+    }
+}
+
+/// The CLVM serialisation format, written out: 0xff pair; one byte for 0x00..0x7f; otherwise a length prefix of 1..5
+/// bytes (0x80 | 6 bits, 0xc0 | 13, 0xe0 | 20, 0xf0 | 27, 0xf8 | 34) and the content.
+pub fn format_encode(v: &V) -> Vec<u8> {
+    fn go(v: &V, out: &mut Vec<u8>) {
+        match v {
+            V::P(a, b) => {
+                out.push(0xff);
+                go(a, out);
+                go(b, out);
+            }
+            V::A(c) => {
+                let n = c.len() as u64;
+                if n == 0 {
+                    out.push(0x80);
+                } else if n == 1 && c[0] < 0x80 {
+                    out.push(c[0]);
+                } else {
+                    if n < 0x40 {
+                        out.push(0x80 | n as u8);
+                    } else if n < 0x2000 {
+                        out.extend([0xc0 | (n >> 8) as u8, n as u8]);
+                    } else if n < 0x10_0000 {
+                        out.extend([0xe0 | (n >> 16) as u8, (n >> 8) as u8, n as u8]);
+                    } else if n < 0x800_0000 {
+                        out.extend([0xf0 | (n >> 24) as u8, (n >> 16) as u8, (n >> 8) as u8, n as u8]);
+                    } else {
+                        out.extend([0xf8 | (n >> 32) as u8, (n >> 24) as u8, (n >> 16) as u8, (n >> 8) as u8, n as u8]);
+                    }
+                    out.extend_from_slice(c);
+                }
+            }
+        }
+    }
+    let mut out = vec![];
+    go(v, &mut out);
+    out
 }
 
 fn res_json(r: &Result<V, String>) -> Value {
